@@ -7,6 +7,10 @@
         partition block lengths (sum = number of frames); `len@fs2` = this block is processed with sample rate fs2
                   (modes T, P only)
         `K|<mchan>`: see `parseMChan`; answers the spec text of `packSpec`.
+        `Z|<fs> <ms>`: answers `<delaySamplesF fs ms> <delaySamples fs ms>` (binary64 / exact conversion).
+        `N|<fs> <nch>|<spec>|<frames>`: the strict literal meaning `meaningStrict` on the whole input:
+        the samples, or `undefined`.
+        The processors are run with the binary64 conversion (`stepG delaySamplesF`), as the code does.
    out: every block followed by `;`. T: a block is its samples `num/den` separated by blanks.
         U: a block is its frames separated by `,`, a frame is its samples separated by blanks.
         If a call raises: the blocks produced before it, then `!<PythonException>:<kind>`.
@@ -152,6 +156,24 @@ def traceWith {β γ : Type} (f : List β → Except Err (List γ)) (calls : Lis
 
 def answer (line : String) : String :=
   match line.splitOn "|" with
+  | ["Z", a] =>
+    match words a with
+    | [fs, ms] =>
+      match fs.toInt?, parseRat? ms with
+      | some fs, some ms => s!"{delaySamplesF fs ms} {delaySamples fs ms}"
+      | _, _ => "bad-op"
+    | _ => "bad-op"
+  | ["N", hd, spec, frames] =>
+    match parseInts? (words hd) with
+    | some [fs, nchI] =>
+      if nchI < 0 then "bad-op" else
+      match parseFrames nchI.toNat frames, parseWhole spec with
+      | some x, some s =>
+        match meaningStrict fs nchI.toNat s x with
+        | some v => showRow v ++ ";"
+        | none => "undefined"
+      | _, _ => "bad-op"
+    | _ => "bad-op"
   | ["K", mch] =>
     -- the spec `output_channel_allocation` builds for a matrix channel, in the spec syntax above
     let ws := words mch
@@ -173,7 +195,7 @@ def answer (line : String) : String :=
             -- T: TrackProcessor(spec) = build (simplify spec); P: _track_spec_processor(spec) = build spec
             match (if mode = "T" then trackProcessor s else build s) with
             | .error e => showErr e
-            | .ok p => traceWith (runR nch p) calls showRow
+            | .ok p => traceWith (runRG delaySamplesF nch p) calls showRow
           | none => "bad-op"
         else if mode = "U" then
           if ps.any (fun p => p.1 ≠ fs) then "bad-op" else
@@ -184,7 +206,7 @@ def answer (line : String) : String :=
             match buildMulti ss with
             | .error e => showErr e
             | .ok _ =>
-              traceWith (fun c => runMultiSpec fs nch ss c) (calls.map (·.2))
+              traceWith (fun c => runMultiSpecF fs nch ss c) (calls.map (·.2))
                 (fun blk => ",".intercalate (blk.map showRow))
           | none => "bad-op"
         else "bad-op"
